@@ -286,6 +286,10 @@ def task(spec):
                 missing = [x for x in regs if int(x[1:]) not in cap.returned_registers]
                 if missing:
                     out["problems"].append(dict(kind="register_missing_from_count", vec=vec, missing=missing, code=r["code"]))
+                elif nr != len(set(cap.returned_registers)):
+                    # "the number of distinct general registers the transpiler allocated": the allocator's own
+                    # set (captured from the real assign_registers), neither more nor fewer
+                    out["problems"].append(dict(kind="num_registers_not_the_allocated_set", vec=vec, reported=nr, allocated=sorted(set(cap.returned_registers)), code=r["code"]))
     except Exception as e:
         out["status"] = "harness_error"
         out["detail"] = f"{type(e).__name__}: {e}"
@@ -325,6 +329,10 @@ def run(tier: str) -> int:
             rep.violation(f"statistics of get_code: {cex} ; replayed: {replayed}", path)
         else:
             rep.notes.append(f"note: statistics counterexample {cex} did not replay on a real compile")
+    elif str(tl["result"]).startswith("raise"):
+        # the current statements use something the abstract text does not model (e.g. a regular expression
+        # over the emitted text): this obligation is inconclusive, the recount of every real output decides
+        rep.notes.append(f"note: get_code tail obligation not applicable to the current statements (inconclusive): {tl['result']}")
     elif tl["result"] != "unsat":
         rep.harness_errors.append(f"E2 get_code tail obligation: {tl['result']}")
     progs = [(f"fixed:{k}", v) for k, v in FIXED.items()] + [("empty", ""), ("comment_only", "# nothing\n")]
